@@ -60,6 +60,7 @@ class SimNode:
         self.acct_epoch = {}  # pkh -> number of blocks that included operations of pkh
         self.counter_read_epoch = {}  # pkh -> acct_epoch at the last counter read
         self.race_tainted = {}  # pkh -> True if a block with own ops landed between counter read and mempool read
+        self.last_counter_served = {}  # pkh -> (counter served at head, contents pending at that moment)
         self.stats = sim.stats
         self._genesis()
 
@@ -203,6 +204,29 @@ class SimNode:
             self.other_classes[where].append(op)
         return h
 
+    def add_foreign_kind_pending(self, pkh, kind='increase_paid_storage', n=1):
+        """A pending (validated) manager operation of `pkh` made by another wallet, of a kind pytezos itself cannot build.
+        It takes counters like any other manager operation."""
+        acct = self.accounts[pkh]
+        base = acct['counter'] + self.pending_of(pkh)
+        contents = []
+        for i in range(n):
+            j = {'kind': kind, 'source': pkh, 'fee': '600', 'counter': str(base + 1 + i), 'gas_limit': '1500', 'storage_limit': '0'}
+            if kind == 'increase_paid_storage':
+                j.update(amount='10', destination='KT1BEqzn5Wx8uJrZNvuS9DVHmLvG9td3fDLi')
+            elif kind == 'update_consensus_key':
+                j.update(pk='edpkuKfUhDJe7r9drgmtSayjTSWibCFfSDmgV8H7HgMNqwKiw5Y3bA')
+            elif kind == 'set_deposits_limit':
+                j.update(limit='1000')
+            contents.append({'kind': kind, 'source': pkh, 'counter': base + 1 + i, 'fee': 600, 'gas_limit': 1500, 'json': j})
+        h = oc.op_hash(b'foreign%d/%s/%d' % (self.sim.seq, pkh.encode(), len(self.known_ops)))
+        self.mempool.append({'hash': h, 'branch': self.head['hash'], 'contents': contents, 'raw': b'', 'signature_b58': 'sigForeign', 'own': True})
+        self.known_ops[h] = 'mempool'
+        # for the account this is an accepted injection like any other (made through another wallet): a group of the account that was
+        # filled before it and is injected after it is an interleaved history
+        self.stats['injections_accepted'] += 1
+        return h
+
     def add_stale_own_op(self, pkh, where='outdated', n=1):
         """An operation of `pkh` that will never take a counter: already superseded (`outdated`), refused or delayed.  It is
         listed by pending_operations under that class but is not pending."""
@@ -244,6 +268,16 @@ class SimNode:
                 if self.counter_read_epoch.get(pkh) is not None and self.counter_read_epoch[pkh] != self.acct_epoch.get(pkh, 0):
                     self.race_tainted[pkh] = True
             return core.Reply.js(self._pending_json())
+        if path == '/chains/main/mempool/filter' and method == 'GET':
+            mode = self.cfg.get('filter_rpc', 'default')
+            if mode == 'absent':
+                return core.Reply.text('not found', 404)
+            if mode == 'lowered':
+                # an operator relaxed this node's own filter; the rest of the network still applies the default
+                return core.Reply.js({'minimal_fees': '0', 'minimal_nanotez_per_gas_unit': ['50', '1'], 'minimal_nanotez_per_byte': ['500', '1']})
+            if mode == 'raised':
+                return core.Reply.js({'minimal_fees': '250', 'minimal_nanotez_per_gas_unit': ['150', '1'], 'minimal_nanotez_per_byte': ['1200', '1']})
+            return core.Reply.js({})
         if path == '/injection/operation' and method == 'POST':
             return self._inject(req)
         m = _BLOCK_RE.match(path)
@@ -363,6 +397,10 @@ class SimNode:
         if is_head and addr in self.accounts:
             self.counter_read_epoch[addr] = self.acct_epoch.get(addr, 0)
             self.race_tainted[addr] = False
+            self.last_counter_served[addr] = (counter, self.pending_of(addr))  # what the client was told, and what was pending then
+        bal = blk['ctx']['tracked'].get('bal:' + addr)
+        if bal is not None:
+            return core.Reply.js({'balance': str(bal), 'counter': str(counter)}) if not sub else core.Reply.js(str(counter if sub == '/counter' else bal))
         if sub == '/counter':
             return core.Reply.js(str(counter))
         if sub == '/balance':
